@@ -5,14 +5,16 @@ import "hrverif/internal/core"
 func init() {
 	register(&Property{
 		ID:    "C04",
-		Rules: []string{"C04-R1", "C04-R2", "C04-R3"},
+		Rules: []string{"C04-R1", "C04-R2", "C04-R3", "C04-R4"},
 		Explain: "Decides the control structure of the tokenizer: C04-R1 the scan loop of ParseStreamCallback is evaluated as an observer over first(line) x blank x record-open x note x no-separator x conversion-error and must perform exactly the events of the documented line classification table (skip; flush once then open; note; bad syntax; conversion error; entry), keep the open record across every non-heading line and return from inside the loop only when a callback asks to stop; " +
 			"C04-R2 at end of input an open record is delivered exactly once and its callback error returned; " +
-			"C04-R3 the constant trim sets and the entry splitter agree with docs/syntax.ebnf (separator, quote, both indentation characters in every set, the dash in the name sets only, nothing that belongs to a name or number, splitter = exactly space and tab).",
-		NotDecided: "that names and values come out right for all inputs (splitting at the last blank, trimming, ParseFloat rounding, UTF-8), CRLF handling (bufio.ScanLines), quoted names",
+			"C04-R3 the constant trim sets and the entry splitter agree with docs/syntax.ebnf (separator, quote, both indentation characters in every set, the dash in the name sets only, nothing that belongs to a name or number, splitter = exactly space and tab); " +
+			"C04-R4 the parser configuration (comment character) set by the defaults is not wiped when a configuration file is read: the file is read into the live options or a complete copy of them.",
+		NotDecided:  "that names and values come out right for all inputs (splitting at the last blank, trimming, ParseFloat rounding, UTF-8), CRLF handling (bufio.ScanLines), quoted names",
 		Assumptions: []string{"bufio.Scanner: Scan() false then Err() nil-or-not; Text() returns the raw line"},
 		Run: func(c *core.Ctx) {
 			analyseParserLoop(c, map[string]bool{"C04-R1": true, "C04-R2": true, "C04-R3": true})
+			ruleConfigTarget(c, "C04-R4")
 		},
 	})
 }
